@@ -1344,8 +1344,10 @@ def unname(e):
 
 def subexprs(e):
     """iterate all sub-tuples of a canonical expression"""
-    if isinstance(e, tuple):
+    if isinstance(e, tuple) and e:
         yield e
+        if e[0] == "K":
+            return  # a constant's value is not an expression
         for x in e:
             if isinstance(x, tuple):
                 for y in subexprs(x):
